@@ -87,7 +87,7 @@ def td_input(o, tag):
 
 
 def _round_ob(fn, kind):
-    @obligation(prop="C17", tier="quick", timeout=900,
+    @obligation(prop="C17", tier="quick", timeout=900, probe="round_" + fn,
                 desc=f"{fn} on NaiveDateTime: Ok(r) exactly when the span is positive, expressible in i64 nanoseconds and the timestamp fits in i64 nanoseconds; then r is the {kind} multiple of the span counted from the Unix epoch, |r - input| < span, multiples are returned unchanged (hence idempotent); errors are classified as documented; the function panics only if the rounded instant itself is not representable (never inside the i64-nanosecond window)",
                 bounds="all non-leap NaiveDateTimes (as instants) x all in-range TimeDeltas; symbolic divisor via the division lemma; timestamp_nanos_opt and NaiveDateTime +/- TimeDelta through their proved contracts",
                 outside="leap-second operands (C07 rules apply); the DateTime<Tz> instantiation is covered by Kani glue harnesses")
@@ -98,8 +98,12 @@ def _round_ob(fn, kind):
         td, v = td_input(o, "d")
         r = o.call(fn + "::<NaiveDateTime>", dt, dt, td)
         ok = r.disc == 0
+        _res0 = inst_of(r.payload[0][0])
+        _err0 = r.payload.get(1, [None])[0]
+        o.flat = [z3.If(ok, 1, 0), z3.If(ok, _res0, _err0.disc if _err0 is not None else 0)]
         o.no_panic()
         o.reachable("ok_negative_stamp", z3.And(ok, N < 0))
+        o.reachable("ok_negative_remainder", z3.And(ok, N < 0, inst_of(r.payload[0][0]) != N))
         o.reachable("err", z3.Not(ok))
         span_ok = z3.And(v > 0, v <= I64MAX)
         stamp_ok = z3.And(N >= I64MIN, N <= I64MAX)
